@@ -332,7 +332,8 @@ def _obs():
     for ct in range(3):
         for co in range(3):
             for ce in range(3):
-                tiers = ([Q] if (ct, co, ce) in quick_combos else []) + [T]
+                thorough_combos = quick_combos + [(2, 2, 2), (1, 0, 2), (2, 1, 0), (0, 2, 1), (2, 0, 2)]
+                tiers = ([Q] if (ct, co, ce) in quick_combos else []) + ([T] if (ct, co, ce) in thorough_combos else [])
                 for tier in tiers:
                     nn, ndt = (2, 2) if tier == Q else (3, 4)
                     obs.append(Ob('K1', 'k1_structure', what,
@@ -342,7 +343,7 @@ def _obs():
                                   % (nn, ndt, ['None', 'False', 'list'][ct], ['None', 'False', 'list'][co],
                                      ['None', 'False', 'list'][ce]),
                                   param={'ncol': 2, 'nnames': nn, 'ndt': ndt, 'ct': ct, 'co': co, 'ce': ce},
-                                  timeout=600 if tier == Q else 3600, tier='quickonly' if tier == Q else T,
+                                  timeout=600 if tier == Q else 2400, tier='quickonly' if tier == Q else T,
                                   stubs=['CFrame (frame double)', 'replace_cats -> identity']))
     for rows, tier, to in ((2, Q, 600), (3, T, 3000)):
         for part in ('ints', 'floats'):
